@@ -660,7 +660,7 @@ func propSpecs() map[string]PropSpec {
 			}
 			return js
 		}})
-	add(PropSpec{ID: "C11", Level: "exploration", Classes: []string{"crash", "hang", "canary", "deadlock"},
+	add(PropSpec{ID: "C11", Level: "exploration", Classes: []string{"crash", "hang", "canary", "deadlock", "memory"},
 		Rule: "structured hostile argument generation for all 22 NFS and 6 MOUNT procedures of nfs.Nfs (direct and rpc adapters) and of simple.Nfs: handles of length 0-64 with arbitrary bytes / valid number and any generation / numbers at the table ends, names of length 0..70000 incl. '.', '..', NUL, offsets/counts/sizes/cookies from boundary pools up to 2^64-1, counts that disagree with the data supplied, every enumeration value incl. illegal ones; in five file-system states (empty, deep, nearly full, shrinking, cold caches); plus byte-level mutation of well-formed framed RPC calls sent to an rfc1057 server registered like cmd/go-nfsd; every request is logged before it is sent, the child must survive (ulimit -v 8 GiB), answer (watchdog + lock monitor) and pass the canary (GETATTR root, create/write/read/remove, fsck) afterwards; distinct = distinct (procedure, handle-length class, argument class) combinations",
 		Plan: func(tier string, seed uint64) []Job {
 			n := 40
